@@ -123,4 +123,34 @@ def mkRequest (zExt : Val) (ver : Nat × Nat) (op : Nat) (payload : DynV) : Val 
                    .one (.time zeroTimeU), .one (.int 1)]),
     .many [.struct [.one (.enum op), .one (.bytes []), .dyn payload, .one zExt]]]
 
+/-! ### the same, as a table: where each field of the two messages comes from (compared with the assignments kvscan reads off
+    `handleBatch` and `Client.Send`: GenC07_response_copies, GenC14_request_copies) -/
+
+/-- every assignment to a field of the Response in `handleBatch`, in source order -/
+def respFlow : List (String × String) := [
+  ("resp.Header.Version", "req.Header.Version"),
+  ("resp.Header.TimeStamp", "time.Now()"),
+  ("resp.Header.ClientCorrelationValue", "req.Header.ClientCorrelationValue"),
+  ("resp.Header.BatchCount", "req.Header.BatchCount"),
+  ("resp.BatchItems", "make([]ResponseBatchItem, req.Header.BatchCount)"),
+  ("resp.BatchItems[i].Operation", "req.BatchItems[i].Operation"),
+  ("resp.BatchItems[i].UniqueID", "append([]byte(nil), req.BatchItems[i].UniqueID...)"),
+  ("resp.BatchItems[i].ResultStatus", "RESULT_STATUS_OPERATION_FAILED"),
+  ("resp.BatchItems[i].ResultMessage", "batchErr.Error()"),
+  ("resp.BatchItems[i].ResultReason", "protoErr.ResultReason()"),
+  ("resp.BatchItems[i].ResultReason", "RESULT_REASON_GENERAL_FAILURE"),
+  ("resp.BatchItems[i].ResultStatus", "RESULT_STATUS_SUCCESS"),
+  ("resp.BatchItems[i].ResponsePayload", "batchResp")]
+
+/-- every field of the Request literal in `Client.Send` -/
+def reqFlow : List (String × String) := [
+  ("request.Header.Version", "c.Version"),
+  ("request.Header.BatchCount", "1"),
+  ("request.BatchItems[0].Operation", "operation"),
+  ("request.BatchItems[0].RequestPayload", "req")]
+
+/-- the rows of a dataflow table whose target lies under `root` (`resp` / `request`) -/
+def under (root : List Char) (t : List (String × String)) : List (String × String) :=
+  t.filter fun p => (p.1.toList.take (root.length + 1)) == root ++ ['.']
+
 end Kmip.Wire
